@@ -713,6 +713,68 @@ theorem thread_enforced (need : String → String → Nat → List Nat) (G : Gra
   obtain ⟨fl', h1, hm⟩ := thread_keeps_parent_flags s tid fl hs ops
   exact ⟨fl', h1, checker_sound_entry need G C h fl' c F md fn nm hlt hc R hR (subMask_trans hdis hm)⟩
 
+/-! ### the tracked variables are independent bit fields -/
+
+theorem upd_read (md k o f : Nat) (hkf : k &&& f = 0) (hof : o &&& f = o) : ((md &&& k) ||| o) &&& f = o := by
+  rw [Nat.and_or_distrib_right, Nat.and_assoc, hkf, Nat.and_zero, Nat.zero_or, hof]
+
+theorem upd_keep (md k o g : Nat) (hkg : k &&& g = g) (hog : o &&& g = 0) : ((md &&& k) ||| o) &&& g = md &&& g := by
+  rw [Nat.and_or_distrib_right, Nat.and_assoc, hkg, hog, Nat.or_zero]
+
+theorem or_keep (md x g : Nat) (hxg : x &&& g = 0) : (md ||| x) &&& g = md &&& g := by
+  rw [Nat.and_or_distrib_right, hxg, Nat.or_zero]
+
+theorem fields_facts : ∀ f ∈ fields, (wordAll - f) &&& f = 0 ∧
+    ∀ g ∈ fields, g ≠ f → (wordAll - f) &&& g = g ∧ f &&& g = 0 := by decide
+
+theorem within_other {o f g : Nat} (hof : o &&& f = o) (hfg : f &&& g = 0) : o &&& g = 0 := by
+  rw [← hof, Nat.and_assoc, hfg, Nat.and_zero]
+
+/-- ★ a `modeUpd` node accepted by `fieldsOK` is an assignment `x := o` to ONE tracked variable (field `f`): afterwards the
+    field holds `o`, and every other tracked variable holds what it held before -/
+theorem upd_semantics (k o : Nat) (h : opFieldsOK (.modeUpd k o) = true) (md : Nat) :
+    ∃ f ∈ fields, ((md &&& k) ||| o) &&& f = o ∧ ∀ g ∈ fields, g ≠ f → ((md &&& k) ||| o) &&& g = md &&& g := by
+  unfold opFieldsOK at h
+  rw [List.any_eq_true] at h
+  obtain ⟨f, hf, hk⟩ := h
+  rw [Bool.and_eq_true] at hk
+  have hk1 : k = wordAll - f := beq_iff_eq.mp hk.1
+  have hof : o &&& f = o := beq_iff_eq.mp hk.2
+  obtain ⟨h0, hoth⟩ := fields_facts f hf
+  refine ⟨f, hf, ?_, ?_⟩
+  · rw [hk1]; exact upd_read md _ o f h0 hof
+  · intro g hg hne
+    obtain ⟨h1, h2⟩ := hoth g hg hne
+    rw [hk1]; exact upd_keep md _ o g h1 (within_other hof h2)
+
+/-- ★ a `modeOr` node accepted by `fieldsOK` is `x |= c` on the open-flags or the assert-mask variable: no other tracked
+    variable changes -/
+theorem or_semantics (x : Nat) (h : opFieldsOK (.modeOr x) = true) (md : Nat) :
+    ∃ f ∈ fields, (md ||| x) &&& f = (md &&& f) ||| x ∧ ∀ g ∈ fields, g ≠ f → (md ||| x) &&& g = md &&& g := by
+  unfold opFieldsOK at h
+  rw [Bool.or_eq_true] at h
+  have key : ∀ f ∈ fields, x &&& f = x →
+      (md ||| x) &&& f = (md &&& f) ||| x ∧ ∀ g ∈ fields, g ≠ f → (md ||| x) &&& g = md &&& g := by
+    intro f hf hx
+    refine ⟨by rw [Nat.and_or_distrib_right, hx], ?_⟩
+    intro g hg hne
+    exact or_keep md x g (within_other hx ((fields_facts f hf).2 g hg hne).2)
+  cases h with
+  | inl hl => exact ⟨fieldLo, by decide, key fieldLo (by decide) (beq_iff_eq.mp hl)⟩
+  | inr hr => exact ⟨fieldHi, by decide, key fieldHi (by decide) (beq_iff_eq.mp hr)⟩
+
+/-- ★ a `modeTest` node accepted by `fieldsOK` looks at ONE guard variable only: two words that agree on that field take the
+    same branch -/
+theorem test_semantics (m v : Nat) (eq : Bool) (_h : opFieldsOK (.modeTest m v eq) = true) (md md' : Nat)
+    (hagree : md &&& m = md' &&& m) : (((md &&& m) == v) == eq) = (((md' &&& m) == v) == eq) := by
+  rw [hagree]
+
+/-- non-vacuity: writing guard variable 1 of a word that holds open flags 577, assert mask 96 and guard 0 = 1 -/
+example : opFieldsOK (.modeUpd (wordAll - fieldGuard 1) (1 <<< 56)) = true ∧
+    (((577 + 96 <<< 16 + 1 <<< 48) &&& (wordAll - fieldGuard 1)) ||| (1 <<< 56)) = 577 + 96 <<< 16 + 1 <<< 48 + 1 <<< 56 := by decide
+/-- … and an assignment that spills into a neighbouring field is rejected -/
+example : opFieldsOK (.modeUpd (wordAll - fieldGuard 1) (1 <<< 48)) = false ∧ opFieldsOK (.modeUpd 65535 0) = false := by decide
+
 /-! ### the `mayGrow` summary -/
 
 /-- ★ a callee that the slice transcribes as "no event" never reaches - through direct calls or type-compatible indirect
